@@ -68,6 +68,8 @@ pub fn alphabet(lw: u32, lh: u32, pairs: bool) -> Vec<Op> {
         }
     }
     ops.push(Op::Clear { c: 0x0601 });
+    // a colour whose first and last bus word are equal but whose middle word differs (green in Rgb666)
+    ops.push(Op::Clear { c: 0x0FC0 });
     // draw_iter: every single pixel and every ordered pair (same position twice included)
     for p in 0..(lw * lh) {
         let (x, y) = ((p % lw) as i32, (p / lw) as i32);
